@@ -8,7 +8,7 @@ import tempfile
 import traceback
 from pathlib import Path
 
-from harness.common import REPO, rng, short
+from harness.common import quick_scale, REPO, rng, short
 from harness.gen import grammars as G
 
 if str(REPO) not in sys.path:
@@ -291,7 +291,7 @@ def run(rep, tier, pool, variants=("shipped",)):
         "forced-error); non-trivial = grammar accepted by the generator and analyses agree; distinct by grammar text"
     )
     r = rng("C17")
-    n = 120 if tier == "quick" else 3000
+    n = 120 * quick_scale() if tier == "quick" else 3000
     maxlen = 5 if tier == "quick" else 6
     gs = list(FIXED)
     fam = [g for g in multi_cycle_family() if G.well_formed(g)]
